@@ -310,7 +310,7 @@ tr!(c04_bc_shared_inclone, hk_c04_bc_shared_inclone, BcT, 2, 1, [2, 1, 1], IN_CL
 tr!(c04_bc_streams_inclone, hk_c04_bc_streams_inclone, BcT, 3, 1, [2, 1, 1], IN_CLONE);
 // sole consumer viewing in place; the producer tries to wrap the ring meanwhile
 tr!(c04_bc_view_inview, hk_c04_bc_view_inview, BcT, 5, 1, [3, 1, 0], TrCfg { per_site: 3, ..IN_CLONE });
-tr!(c04_mp_view_inview, hk_c04_mp_view_inview, MpT, 5, 1, [3, 1, 0], TrCfg { per_site: 3, ..IN_CLONE });
+tr!(c04_mp_view_inview, hk_c04_mp_view_inview, MpT, 5, 1, [3, 1, 0], TrCfg { per_site: 3, kinds: (1 << payload::K_PAYLOAD) | (1 << payload::K_PAYLOAD_DROP), ..IN_CLONE });
 // the same with two live senders: the producer runs the multi-writer path (CAS claim loop)
 tr!(c18_bc_shared_inclone_mw, hk_c18_bc_shared_inclone_mw, BcT, 2, 1, [2, 1, 1], TrCfg { multi_writer: true, ..IN_CLONE });
 // consumer A is in the middle of clone() when its sibling handle is dropped (consumers 2 -> 1)
